@@ -84,6 +84,33 @@ func (s *State) learn(c *BoolVal) {
 	s.subst[an] = b
 }
 
+// learnZero: an unsigned quantity decided to be <= 0 (or < 1) is zero.
+func (e *Engine) learnZero(st *State, c *BoolVal) {
+	if c == nil {
+		return
+	}
+	a, okA := c.A.(*Form)
+	b, okB := c.B.(*Form)
+	if !okA || !okB {
+		return
+	}
+	var x *Form
+	bc, bIsC := b.ConstInt()
+	ac, aIsC := a.ConstInt()
+	switch {
+	case c.Op == "<=" && bIsC && bc == 0, c.Op == "<" && bIsC && bc == 1:
+		x = a
+	case c.Op == ">=" && aIsC && ac == 0, c.Op == ">" && aIsC && ac == 1:
+		x = b
+	}
+	if x == nil {
+		return
+	}
+	if an, ok := x.SingleAtom(); ok && e.atomNonneg(an) {
+		st.learn(&BoolVal{Op: "==", A: x, B: formInt(0)})
+	}
+}
+
 // prefixEqualities spells the condition HasPrefix(s, p) out as element
 // equalities when the elements of both slices are known values.
 func (e *Engine) prefixEqualities(st *State, c *BoolVal) []*BoolVal {
@@ -244,6 +271,9 @@ type Engine struct {
 	// LoadHook may supply the value of a load (used for storage whose content
 	// is changed behind the interpreter's back by uninterpreted callees);
 	// StoreHook observes every store into a cell.
+	// NonNil names uninterpreted values known not to be nil (a premise the
+	// caller discharges elsewhere): comparisons with nil are decided.
+	NonNil    func(v Val) bool
 	LoadHook  func(st *State, p *Ptr) (Val, bool)
 	StoreHook func(st *State, p *Ptr, v Val)
 	// PruneByFacts drops a branch whose condition is refuted, in integer linear
@@ -870,6 +900,8 @@ func (e *Engine) exec(st *State, fr *frame, b, pred *ssa.BasicBlock, idx, depth 
 				st2.conds = append(st2.conds, c.Not())
 				st.learn(c)
 				st2.learn(c.Not())
+				e.learnZero(st, c)
+				e.learnZero(st2, c.Not())
 				if c.Op == "prefix" {
 					// HasPrefix(s, p) with known elements: s[i] == p[i] for every i < len(p)
 					for _, eq := range e.prefixEqualities(st, c) {
@@ -1786,6 +1818,13 @@ func (e *Engine) compare(op token.Token, x, y Val, xt types.Type) (Val, string) 
 		if b, ok := y.(*Opaque); ok && a.Key == b.Key {
 			return boolConst(op == token.EQL), ""
 		}
+		if e.NonNil != nil && (op == token.EQL || op == token.NEQ) {
+			if b, ok := y.(*Opaque); ok {
+				if (b.Key == "nil" && a.Key != "nil" && e.NonNil(a)) || (a.Key == "nil" && b.Key != "nil" && e.NonNil(b)) {
+					return boolConst(op == token.NEQ), ""
+				}
+			}
+		}
 		if b, ok := y.(*ErrVal); ok && b.IsNil && a.Key != "nil" && (strings.Contains(a.Key, "Err") || strings.Contains(a.Key, "EOF")) && (op == token.EQL || op == token.NEQ) {
 			// a sentinel error variable is never nil
 			return boolConst(op == token.NEQ), ""
@@ -1799,6 +1838,11 @@ func (e *Engine) compare(op token.Token, x, y Val, xt types.Type) (Val, string) 
 			if a.Arr != nil || (a.Base != nil && a.Base.Fn == "make") {
 				return boolConst(op == token.NEQ), ""
 			}
+		}
+	case *FuncVal:
+		// a function or closure value is never nil
+		if b, ok := y.(*Opaque); ok && b.Key == "nil" && (op == token.EQL || op == token.NEQ) {
+			return boolConst(op == token.NEQ), ""
 		}
 	case *Ptr:
 		if _, ok := y.(*Opaque); ok && a.Cell != nil { // p == nil
